@@ -223,7 +223,7 @@ BT = {
     "UPDATE": (["C04", "C16"], "btcp_update (connection): epoll mask = map(awaited condition), bell only for terminal states / completed query"),
     "SERVER_UPDATE": (["C04", "C16"], "btcp_update (server): EPOLLIN on the listen descriptor iff ACCEPTABLE awaited"),
     "SETOPT": (["C11", "C10"], "tcp.keepalive*/tcp.user_timeout setters from any state with a setsockopt that may fail: kernel options of the live descriptor = f(stored options), rejected value changes nothing, full 64-bit values"),
-    "ESTABLISH": (["C11", "C13", "C06", "C04"], "one try_establish step from resolving/connecting over DNS and TCONNECT contract mocks: options changed during establishment are applied, resolver list passed on, errnos remembered"),
+    "ESTABLISH": (["C11", "C13", "C06", "C04", "C05"], "one try_establish step from resolving/connecting over DNS and TCONNECT contract mocks: options changed during establishment are applied, resolver list passed on, errnos remembered"),
     "ONCE": (["C11"], "creation-only attributes (dns.*, tcp.connect_timeout, ipv6.scope, xcm.local_addr) in every state: EACCES afterwards, nothing changed"),
 }
 for op, (props, d) in BT.items():
@@ -231,6 +231,11 @@ for op, (props, d) in BT.items():
 for (g, sfn, t) in extract_attrs("libxcm/tp/tcp/xcm_tp_btcp.c"):
     ob("btcp.getter." + g, "btcp/btcp.c", ["-DOP_GETTER", "-DGETTER=" + g, "-DGSIZE=%d" % GSIZE.get(t, 0)], ["C10"], unwind=30, unwindset=["memcmp.0:50"], link=BTCP_LINK,
        desc="real getter %s (%s) from any socket state, every capacity the attribute tree can pass: never writes past capacity, length exact" % (g, t))
+for op, d in (("CONNECT", "btcp_connect (address parse, tconnect_create, xcm_dns_resolve, connect start, first establishment step each failing at will; remote by name or number)"),
+              ("SERVER", "btcp_server (parse, synchronous resolution, socket, DSCP/REUSEADDR setsockopt, getsockname, scope, bind, listen each failing at will)"),
+              ("ACCEPT", "btcp_accept (creation-only attributes refused, accept4 EAGAIN/EMFILE, option setsockopts failing)")):
+    ob("btcp.life_" + op.lower(), "btcp/life.c", ["-DOP_LIFE_" + op], ["C08", "C05", "C13"], unwind=10, link=BTCP_LINK,
+       desc="btcp_init -> " + d + " -> btcp_close | btcp_cleanup over a KERNEL-FD ghost table: every descriptor closed exactly once, no foreign descriptor touched, registrations/bell/tconnect/query released, cleanup leaves the shared epoll set alone; SOCK_NONBLOCK everywhere")
 _btcp_assumptions = [
     "btcp over KERNEL-STREAM stubs: send/recv return 1..len, 0 (recv), or -1 with EAGAIN/EPIPE/ECONNRESET/ETIMEDOUT/EHOSTUNREACH/ENETUNREACH/ECONNREFUSED at the solver's choice; setsockopt may fail at every call",
     "XPOLL, DNS and TCONNECT contract mocks (the TCONNECT contract 'the fd handed over has the snapshot options in force' is what the tconnect obligations assert)",
